@@ -8,7 +8,7 @@ oracle:      identity vs deep structure over pools of live ASTs: same tree built
              objects never share a deep structural key; an annotation requested is the annotation carried (==), also for
              annotation objects with colliding hashes (built-in classes and a user class)
 """
-import collections, gc
+import collections, gc, os, pickle, subprocess, sys
 
 import claripy
 from claripy.ast.base import Base
@@ -23,26 +23,15 @@ THEOREMS = ["Claripy.Props.C06.C06_int_roundtrip", "Claripy.Props.C06.C06_intByt
 M61 = (1 << 61) - 1
 
 
-class UA(claripy.Annotation):
-    """a user annotation class that hashes its integer payload with hash() (as angr-style annotations do)"""
-    eliminatable = False
-    relocatable = False
-
-    def __init__(self, v):
-        self.v = v
-
-    def __hash__(self):
-        return hash(("UA", self.v))
-
-    def __eq__(self, o):
-        return isinstance(o, UA) and o.v == self.v
-
-    def __repr__(self):
-        return "UA(%d)" % self.v
+from lib.c06_shared import UA, UR, anno_pool, build_all  # noqa: E402
 
 
 def anno_desc(an):
-    return (type(an).__name__, tuple(sorted((k, repr(v)) for k, v in vars(an).items())))
+    d = (type(an).__name__, tuple(sorted((k, repr(v)) for k, v in vars(an).items())))
+    if type(an).__eq__ is object.__eq__:
+        # no value equality (e.g. SimplificationAvoidanceAnnotation()): every instance is its own annotation
+        d += (id(an),)
+    return d
 
 
 def skey(a, memo):
@@ -58,8 +47,8 @@ def skey(a, memo):
             parts.append(("f", repr(x)))
         else:
             parts.append(("l", type(x).__name__, repr(x)))
-    k = (a.op, tuple(parts), tuple(sorted(anno_desc(an) for an in a.annotations)), a.length)
-    k = hash(k) if False else k
+    # annotations in ORDER: the tuple is applied in sequence by backends, x.annotate(a, b) is not x.annotate(b, a)
+    k = (a.op, tuple(parts), tuple(anno_desc(an) for an in a.annotations), a.length)
     memo[i] = k
     return k
 
@@ -157,6 +146,88 @@ def run(ctx):
                         ser_want.append(Base._ast_serialize(sub.op, sub.args, sub.annotations, sub.length).hex())
             elif other is not sub:
                 ctx.violation("C06/identity/two-objects-one-structure", "two live objects for %r" % (sub,), {"tree": tree, "node": repr(sub)})
+    # ---- (b2) nodes carrying several annotations, attached in different orders and in different ways
+    apool = anno_pool()
+    live = [z for z in keep_alive if isinstance(z, claripy.ast.BV | claripy.ast.Bool)] or [claripy.BVS("x", 32, explicit_name=True)]
+    nperm = 0
+    for rep in range(ctx.pick(400, 6000) * (3 if ctx.broken else 1)):
+        base = rng.choice(live)
+        if base.annotations and rng.random() < 0.7:
+            continue
+        picks = rng.sample(apool, rng.choice([2, 2, 3, 4]))
+        p1 = tuple(picks)
+        p2 = tuple(rng.sample(picks, len(picks)))
+        ctx.count()
+        built = []
+        try:
+            built.append((p1, base.annotate(*p1), "annotate(*p)"))
+            built.append((p2, base.annotate(*p2), "annotate(*p)"))
+            built.append((p2, base.annotate(p2[0]).annotate(*p2[1:]), "annotate(p0).annotate(*rest)"))
+            built.append((p1, base.insert_annotations(p1), "insert_annotations(p)"))
+            built.append((p2, base.annotate(p2[-1]).insert_annotations(p2[:-1]), "annotate(last).insert_annotations(rest)"))
+            built.append((p2, base.annotate(*p1).replace_annotations(p2), "replace_annotations(p)"))
+        except claripy.errors.ClaripyError:
+            continue
+        nperm += 1
+        if p1 != p2:
+            ctx.distinct(("perm", base._hash, tuple(repr(a_) for a_ in p1), tuple(repr(a_) for a_ in p2)))
+        for want, got, how in built:
+            expect = tuple(anno_desc(a_) for a_ in (tuple(base.annotations) if "replace" not in how else ()) )
+            if "insert" in how:
+                expect = tuple(anno_desc(a_) for a_ in want) + expect
+            else:
+                expect = expect + tuple(anno_desc(a_) for a_ in want)
+            have = tuple(anno_desc(a_) for a_ in got.annotations)
+            if have != expect or got.op != base.op or got.args != base.args:
+                ctx.violation("C06/annotate/annotations-differ-from-the-ones-built",
+                              "%r.%s with %r returned an object annotated with %r" % (base, how, want, got.annotations),
+                              {"base": repr(base), "how": how, "requested": repr(want), "got": repr(got.annotations)})
+                break
+            keep_alive.append(got)
+            k = skey(got, memo)
+            other = pool.get(k)
+            if other is None:
+                pool[k] = got
+                if len(ser_lines) < ctx.pick(6000, 60000):
+                    r = ser_request(got)
+                    if r:
+                        ser_lines.append(r)
+                        ser_want.append(Base._ast_serialize(got.op, got.args, got.annotations, got.length).hex())
+            elif other is not got:
+                ctx.violation("C06/identity/two-objects-one-structure", "two live objects for %r annotated %r" % (got, got.annotations),
+                              {"base": repr(base), "how": how, "requested": repr(want)})
+    # ---- (b3) expressions arriving from another process (other string-hash seed), before and after the native build
+    ncross = 0
+    for rep in range(ctx.pick(2, 10) * (3 if ctx.broken else 1)):
+        cseed, cnt = rng.randrange(1 << 30), ctx.pick(120, 400)
+        env = dict(os.environ)
+        env["PYTHONHASHSEED"] = str(rng.randrange(1, 1 << 20))
+        pr = subprocess.run([sys.executable, os.path.join(os.path.dirname(os.path.dirname(os.path.abspath(__file__))), "lib", "c06_shared.py"),
+                             str(cseed), str(cnt)], capture_output=True, text=True, env=env, timeout=300)
+        if pr.returncode != 0:
+            ctx.notes.append("C06 child failed: " + pr.stderr[-300:])
+            continue
+        native_first = rep % 2 == 0
+        native = build_all(cseed, cnt) if native_first else None
+        foreign = pickle.loads(bytes.fromhex(pr.stdout))
+        if native is None:
+            native = build_all(cseed, cnt)
+        for i_, (n_, f_) in enumerate(zip(native, foreign)):
+            ctx.count()
+            ncross += 1
+            m2 = {}
+            if skey(n_, m2) != skey(f_, m2):
+                ctx.violation("C06/pickle/structure-differs", "item %d: built %r here, the other process built %r" % (i_, n_, f_),
+                              {"seed": cseed, "count": cnt, "index": i_, "native_first": native_first})
+                break
+            if n_ is not f_:
+                ctx.violation("C06/pickle/two-objects-one-structure",
+                              "%r: the object unpickled from another process and the one built here (%s) are two live objects" % (
+                                  n_, "before" if native_first else "afterwards"),
+                              {"seed": cseed, "count": cnt, "index": i_, "native_first": native_first, "expr": repr(n_)})
+                break
+            ctx.distinct(("cross", n_._hash))
+        keep_alive.extend(native); keep_alive.extend(foreign)
     # different structure, same object?  -> compare hash buckets
     by_hash = {}
     for k, obj in pool.items():
@@ -195,7 +266,7 @@ def run(ctx):
             ctx.tie_broken("corr:_ast_serialize", "%s: model %s real %s" % (l[:300], o[:200], w[:200])); break
         agree += 1
     ctx.cov["traces_validated_against_impl"] = agree
-    ctx.cov["input_distribution"] = {"integers": len(ints), "nodes_serialised": len(ser_lines), "distinct_structures": len(pool), "templates": dict(dist)}
+    ctx.cov["input_distribution"] = {"integers": len(ints), "nodes_serialised": len(ser_lines), "distinct_structures": len(pool), "multi_annotation_bases": nperm, "cross_process_items": ncross, "templates": dict(dist)}
     if ser_lines:
         ctx.sample({"request": ser_lines[-1][:200], "bytes": ser_want[-1][:120]})
     del keep_alive
